@@ -141,8 +141,11 @@ class TemplateCone(SingleCone):
         import warnings
         with warnings.catch_warnings():
             warnings.simplefilter("ignore")
-            df = create_synthetic_data(n_adults=n_adults, n_children=n_children, policy_year=year)
+            # the template only provides the structure (ids, pointers, ages); synthetic data need the
+            # parameters of their policy year, which do not exist for every year: use a fixed one
+            df = create_synthetic_data(n_adults=n_adults, n_children=n_children, policy_year=2023)
         df = df[df["hh_id"] == df["hh_id"].iloc[0]].reset_index(drop=True)
+        df["geburtsjahr"] = year - df["alter"]
         self.template = df
         self.n = len(df)
         self.dag = dag
@@ -172,6 +175,12 @@ class TemplateCone(SingleCone):
         cs = []
         for i in range(self.n):
             cs += validity.inputs(self.person_syms[i], single_person=False)
+            if "jahr_renteneintr" in self.person_syms[i] and "geburtsjahr" in self.template.columns:
+                gj = int(self.template["geburtsjahr"].iloc[i])
+                t = self.person_syms[i]["jahr_renteneintr"].t
+                cs += [t >= gj + 20, t <= gj + 100]
+            if "rentner" in self.person_syms[i] and bool(self.template["kind"].iloc[i]):
+                cs.append(z3.Not(self.person_syms[i]["rentner"].t))
         return cs
 
     def dataframe(self, model):
@@ -183,3 +192,23 @@ class TemplateCone(SingleCone):
             vals = [R.model_value(model, x) for x in col.e]
             df[n] = pd.Series(vals).astype({bool: bool, int: "int64", float: "float64"}[type(vals[0])])
         return df
+
+
+PENSION_BLOCK = {"rentner": False, "voll_erwerbsgemind": False, "teilw_erwerbsgemind": False, "priv_rente_m": 0.0}
+
+
+def ladder(ck, pre, goal, syms, timeouts=(15, 40)):
+    """search for a model of pre + goal: first with the (heavily non-linear) pension block switched off
+    through its root inputs, then in full generality.  Only the full query can answer unsat.
+    `syms`: {name#i: Sym}.  returns (verdict of the full query or 'sat', model)"""
+    pins = []
+    for k, s_ in syms.items():
+        base = k.split("#")[0]
+        if base in PENSION_BLOCK:
+            val = PENSION_BLOCK[base]
+            pins.append(s_.t == val if s_.ty is not bool else (s_.t if val else z3.Not(s_.t)))
+    if pins:
+        r, m = ck.solve(pre + pins + [goal], timeouts[0])
+        if r == "sat":
+            return "sat", m
+    return ck.solve(pre + [goal], timeouts[1])
